@@ -485,7 +485,7 @@ func (u *Unit) dynCall(fr *Frame, st *State, f *Scalar, args []Val, sig *types.S
 	if f.Aux != nil {
 		m["ctx"] = f.Aux
 	}
-	u.oblige("nopanic.nil_func", []string{"C13"}, name, st.pc, Not(Eq(f.T, TZero)), where, "call of nil function value")
+	u.oblige("nopanic.nil_func", u.panicProps(), name, st.pc, Not(Eq(f.T, TZero)), where, "call of nil function value")
 	full := name
 	if strings.HasPrefix(f.Origin, "field:") {
 		full = f.Origin[6:]
@@ -556,7 +556,8 @@ func (u *Unit) execGo(fr *Frame, st *State, x *ssa.Go, where string) {
 		}
 		deferred := target != nil && startsWithDeferredDone(target)
 		if deferred {
-			u.oblige("spawn.tracked", []string{"C09"}, "go:"+name, st.pc, Cmp(">=", wg, IntLit(1)), where, "goroutine must be announced with wg.Add(1)")
+			// an unannounced goroutine that calls Done drives the counter negative: a panic (C13) besides the lost wait (C09)
+			u.oblige("spawn.tracked", []string{"C09", "C13"}, "go:"+name, st.pc, Cmp(">=", wg, IntLit(1)), where, "goroutine must be announced with wg.Add(1)")
 		} else {
 			u.structural("spawn.tracked", []string{"C09"}, "go:"+name, false, where, "goroutine body does not start with defer wg.Done()")
 		}
@@ -763,6 +764,15 @@ func (u *Unit) invoke(fr *Frame, st *State, cc *ssa.CallCommon, recv Val, args [
 	sig := cc.Signature()
 	rt := u.termOf(recv)
 	if props, ok := nilCheckedIfaces[iname]; ok {
+		for _, pp := range u.panicProps() {
+			found := false
+			for _, q := range props {
+				found = found || q == pp
+			}
+			if !found {
+				props = append(append([]string{}, props...), pp)
+			}
+		}
 		u.oblige("nopanic.nil_invoke("+iname+")", props, "", st.pc, Not(Eq(rt, TZero)), where, "method call on nil "+iname)
 		u.assume(st.pc, Not(Eq(rt, TZero)))
 	}
